@@ -162,9 +162,9 @@ theorem short_stop (total n : Nat) (rest : Bytes) (fu : Bool) (d : Decoded) (h :
   simp only [decLoop, if_pos h]
 
 
-theorem dec_at (B : Bytes) (p n : Nat) (fu : Bool) (d : Decoded) (h : p + 28 ≤ B.length) :
-    decLoop true B.length (n + 1) (B.drop p) fu d =
-      decNext B.length n (B.drop p) fu d (u16 (B.getD p 0) (B.getD (p + 1) 0)) (u16 (B.getD (p + 2) 0) (B.getD (p + 3) 0)) := by
+theorem dec_at (total : Nat) (B : Bytes) (p n : Nat) (fu : Bool) (d : Decoded) (h : p + 28 ≤ B.length) :
+    decLoop true total (n + 1) (B.drop p) fu d =
+      decNext total n (B.drop p) fu d (u16 (B.getD p 0) (B.getD (p + 1) 0)) (u16 (B.getD (p + 2) 0) (B.getD (p + 3) 0)) := by
   rw [dec_unfold _ _ _ _ _ (by simp; omega)]
   simp only [getD_drop, Nat.add_zero]
 
@@ -191,7 +191,7 @@ theorem body_fa (b : List UInt8) (e fu : Bool) (pkt : S_NtsPacket) (pos : Int64)
   simp [dpBody]
 
 theorem body_short (b : List UInt8) (p : Nat) (e fa fu : Bool) (pkt : S_NtsPacket)
-    (hL : b.length < 4611686018427387904) (hp : p ≤ b.length) (h : b.length - p < 28) :
+    (hL : b.length < 4611686018427387904) (hp : p < 4611686018427387904) (h : (b.length : Int) - p < 28) :
     dpBody b (e, fa, fu, pkt, Int64.ofNat p) = .brk (e, fa, fu, pkt, Int64.ofNat p) := by
   have hlen := len_toInt b hL
   have hpos := ofNat_toInt p (by omega)
@@ -324,5 +324,166 @@ theorem body_spec (b : List UInt8) (p : Nat) (fu : Bool) (pkt : S_NtsPacket)
             simp only [dpBody, hc, hh, Bool.not_false, Bool.and_true, Bool.not_true, Bool.false_eq_true, if_false,
           Go.Out.ofOption, Go.Ctl.bindR, UInt16.lt_iff_toNat_lt, h4u, Int64.lt_iff_toInt_lt, gt_iff_lt, hw, hsub,
           Bool.or_eq_true, decide_eq_true_eq, hp4, u16_beq, h1', e260, e1028, e516, e772, hnx, hp0, ha, hu, hk, hph]
+
+/-! ### the induction -/
+
+/-- the model's accumulator, read off the Go packet struct -/
+def view (pkt : S_NtsPacket) : Decoded :=
+  { uid := bytesN pkt.UniqueID.ID, cookies := pkt.Cookies.map (fun c => bytesN c.Cookie),
+    nph := pkt.CookiePlaceholders.length, nonce := bytesN pkt.Auth.Nonce, ct := bytesN pkt.Auth.CipherText,
+    pos := pkt.Auth.pos.toInt.toNat }
+
+theorem forFuel_next {σ ρ : Type} (n : Nat) (s s' : σ) (body : σ → Go.Ctl σ ρ) (h : body s = .next s') :
+    Go.forFuel (n + 1) s body = Go.forFuel n s' body := by
+  simp only [Go.forFuel, h]
+
+theorem forFuel_brk {σ ρ : Type} (n : Nat) (s s' : σ) (body : σ → Go.Ctl σ ρ) (h : body s = .brk s') :
+    Go.forFuel (n + 1) s body = some (.inl s') := by
+  simp only [Go.forFuel, h]
+
+theorem forFuel_ret {σ ρ : Type} (n : Nat) (s : σ) (r : ρ) (body : σ → Go.Ctl σ ρ) (h : body s = .ret r) :
+    Go.forFuel (n + 1) s body = some (.inr r) := by
+  simp only [Go.forFuel, h]
+
+/-- **position-based walk = suffix-based walk**: with a budget above the bytes left (+1 for the
+    iteration that sees `foundAuthenticator`), the generated loop ends exactly as the model's does. -/
+theorem dp_loop (b : List UInt8) (hL : b.length < 4611686018427387904) :
+    ∀ (n p : Nat) (fu : Bool) (pkt : S_NtsPacket), p ≤ b.length → b.length - p < n →
+      (match decLoop true b.length n ((bytesN b).drop p) fu (view pkt) with
+       | .ok (fu', fa', d') => ∃ pkt' pos', Go.forFuel (n + 1) (false, false, fu, pkt, Int64.ofNat p) (dpBody b) =
+            some (.inl (false, fa', fu', pkt', pos')) ∧ view pkt' = d'
+       | .err _ => ∃ pkt', Go.forFuel (n + 1) (false, false, fu, pkt, Int64.ofNat p) (dpBody b) =
+            some (.inr (Go.Out.ok (pkt', true)))
+       | .panic _ => False
+       | .hang => False) := by
+  intro n
+  induction n with
+  | zero => intro p fu pkt _ h; omega
+  | succ n ih =>
+    intro p fu pkt hp hn
+    have hBl : (bytesN b).length = b.length := bytesN_length b
+    have hpos := ofNat_toInt p (by omega)
+    by_cases h28 : p + 28 ≤ b.length
+    · rw [dec_at _ _ _ _ _ _ (by rw [hBl]; exact h28)]
+      have hs := body_spec b p fu pkt hL h28
+      unfold decNext
+      unfold StepOK at hs
+      generalize u16 ((bytesN b).getD p 0) ((bytesN b).getD (p + 1) 0) = t at hs ⊢
+      generalize u16 ((bytesN b).getD (p + 2) 0) ((bytesN b).getD (p + 3) 0) = l at hs ⊢
+      have hdl : ((bytesN b).drop p).length = b.length - p := by rw [List.length_drop, hBl]
+      simp only [hdl, List.drop_drop] at hs ⊢
+      by_cases h1 : l < 4 ∨ l > b.length - p
+      · rw [if_pos h1] at hs ⊢
+        exact ⟨pkt, forFuel_ret _ _ _ _ hs⟩
+      · rw [if_neg h1] at hs ⊢
+        by_cases ha : t = extAuthenticator
+        · rw [if_pos ha] at hs ⊢
+          obtain ⟨eh, N, C, hr, hU⟩ := hs
+          rw [hU]
+          refine ⟨_, _, by rw [forFuel_next _ _ _ _ hr, forFuel_brk _ _ _ _ (body_fa b _ _ _ _)], ?_⟩
+          simp only [view, hpos]
+          congr 1
+          omega
+        · rw [if_neg ha] at hs ⊢
+          by_cases hu : t = extUniqueIdentifier
+          · rw [if_pos hu] at hs ⊢
+            obtain ⟨eh, X, hr, hX⟩ := hs
+            have := ih (p + l) true { pkt with UniqueID := { extHdr := eh, ID := X } } (by omega) (by omega)
+            rw [forFuel_next _ _ _ _ hr]
+            have hv : view { pkt with UniqueID := { extHdr := eh, ID := X } } =
+                { view pkt with uid := copyN (valueLen l) ((bytesN b).drop (p + 4)) } := by simp only [view, hX]
+            rw [hv] at this; exact this
+          · rw [if_neg hu] at hs ⊢
+            by_cases hk : t = extCookie
+            · rw [if_pos hk] at hs ⊢
+              obtain ⟨eh, X, hr, hX⟩ := hs
+              have := ih (p + l) fu { pkt with Cookies := pkt.Cookies ++ [{ extHdr := eh, Cookie := X }] } (by omega) (by omega)
+              rw [forFuel_next _ _ _ _ hr]
+              have hv : view { pkt with Cookies := pkt.Cookies ++ [{ extHdr := eh, Cookie := X }] } =
+                  { view pkt with cookies := (view pkt).cookies ++ [copyN (valueLen l) ((bytesN b).drop (p + 4))] } := by
+                simp only [view, hX, List.map_append, List.map_cons, List.map_nil]
+              rw [hv] at this; exact this
+            · rw [if_neg hk] at hs ⊢
+              by_cases hph : t = extCookiePlaceholder
+              · rw [if_pos hph] at hs ⊢
+                obtain ⟨c, hr⟩ := hs
+                have := ih (p + l) fu { pkt with CookiePlaceholders := pkt.CookiePlaceholders ++ [c] } (by omega) (by omega)
+                rw [forFuel_next _ _ _ _ hr]
+                have hv : view { pkt with CookiePlaceholders := pkt.CookiePlaceholders ++ [c] } =
+                    { view pkt with nph := (view pkt).nph + 1 } := by
+                  simp only [view, List.length_append, List.length_cons, List.length_nil, Nat.zero_add]
+                rw [hv] at this; exact this
+              · rw [if_neg hph] at hs ⊢
+                have := ih (p + l) fu pkt (by omega) (by omega)
+                rw [forFuel_next _ _ _ _ hs]
+                exact this
+    · rw [short_stop _ _ _ _ _ (by rw [List.length_drop, hBl]; omega)]
+      exact ⟨pkt, Int64.ofNat p, forFuel_brk _ _ _ _ (body_short b p false false fu pkt hL (by omega) (by omega)), rfl⟩
+
+/-! ### `DecodePacket` -/
+
+/-- the model's `DecodePacket` when the packet struct passed in already holds fields (`d0`); for an
+    empty struct this is `decodePacket` (`decodeFrom_empty`) -/
+def decodeFrom (d0 : Decoded) (b : Bytes) : Res Decoded :=
+  match decLoop true b.length (b.length + 1) (b.drop ntpPacketLen) false d0 with
+  | .ok (fu, fa, d) => if !fu then .err .noUid else if !fa then .err .noAuth else .ok d
+  | .err e => .err e | .panic p => .panic p | .hang => .hang
+
+theorem decodeFrom_empty (b : Bytes) : decodeFrom {} b = decodePacket b := rfl
+
+theorem ofNat48 : Int64.ofNat 48 = (48 : Int64) := by decide
+
+/-- **`nts.DecodePacket`, for every buffer shorter than 2^62 bytes, every packet struct passed in and
+    every budget above the length + 1**: the regenerated function returns `nil` exactly when the
+    model decodes, and the packet then holds the model's fields; it returns an error exactly when
+    the model does; it never panics and never runs out of budget. -/
+theorem C10_leaf_DecodePacket (pkt0 : S_NtsPacket) (b : List UInt8) (fuel : Nat)
+    (hL : b.length < 4611686018427387904) (hf : b.length + 1 < fuel) :
+    match decodeFrom (view pkt0) (bytesN b) with
+    | .ok d => ∃ pkt', nts_DecodePacket pkt0 b fuel = .ok (pkt', false) ∧ view pkt' = d
+    | .err _ => ∃ pkt', nts_DecodePacket pkt0 b fuel = .ok (pkt', true)
+    | .panic _ => False
+    | .hang => False := by
+  have hBl : (bytesN b).length = b.length := bytesN_length b
+  obtain ⟨k, hk⟩ : ∃ k, fuel = (b.length + 1 + 1) + k := ⟨fuel - (b.length + 2), by omega⟩
+  rw [dp_pieces]
+  unfold decodeFrom ntpPacketLen
+  rw [hBl]
+  by_cases h48 : 48 ≤ b.length
+  · have h := dp_loop b hL (b.length + 1) 48 false pkt0 h48 (by omega)
+    rw [ofNat48] at h
+    cases hm : decLoop true b.length (b.length + 1) ((bytesN b).drop 48) false (view pkt0) with
+    | ok r =>
+      obtain ⟨fu, fa, d⟩ := r
+      rw [hm] at h
+      obtain ⟨pkt', pos', hrun, hv⟩ := h
+      rw [hk, forFuel_mono _ _ k _ _ hrun]
+      cases fu <;> cases fa <;> simp [hv]
+    | err e =>
+      rw [hm] at h
+      obtain ⟨pkt', hrun⟩ := h
+      rw [hk, forFuel_mono _ _ k _ _ hrun]
+      exact ⟨_, rfl⟩
+    | panic m => rw [hm] at h; exact h
+    | hang => rw [hm] at h; exact h
+  · have hnil : (bytesN b).drop 48 = [] := List.drop_eq_nil_of_le (by rw [hBl]; omega)
+    rw [hnil, short_stop _ _ _ _ _ (by simp)]
+    have hb := body_short b 48 false false false pkt0 hL (by omega) (by omega)
+    rw [ofNat48] at hb
+    rw [hk, forFuel_mono _ _ k _ _ (forFuel_brk (b.length + 1) _ _ _ hb)]
+    exact ⟨_, rfl⟩
+
+/-- totality, as a statement about the regenerated code alone: for EVERY buffer (also with zero,
+    short or overlong `Length` fields — the F2/F3 class) and every packet struct, `DecodePacket`
+    returns within `len(b) + 2` iterations and does not panic. -/
+theorem C10_leaf_DecodePacket_total (pkt0 : S_NtsPacket) (b : List UInt8) (fuel : Nat)
+    (hL : b.length < 4611686018427387904) (hf : b.length + 1 < fuel) :
+    ∃ pkt' e, nts_DecodePacket pkt0 b fuel = .ok (pkt', e) := by
+  have h := C10_leaf_DecodePacket pkt0 b fuel hL hf
+  cases hm : decodeFrom (view pkt0) (bytesN b) with
+  | ok t => rw [hm] at h; obtain ⟨c', h1, _⟩ := h; exact ⟨c', false, h1⟩
+  | err e => rw [hm] at h; obtain ⟨c', h1⟩ := h; exact ⟨c', true, h1⟩
+  | panic p => rw [hm] at h; exact h.elim
+  | hang => rw [hm] at h; exact h.elim
 
 end ScionTime.LeafTieC14NtsDec
